@@ -96,6 +96,10 @@ def pFunc : P Func := do
   | "nofc" => do let k ← pRat; pure (.numberofConst k (← pList pNat))
   | "nofv" => do let v0 ← pNat; pure (.numberofVar v0 (← pList pNat))
   | "count" => do pure (.count (← pList pNat))
+  | "pl" => do
+      let pts ← pList (do let x ← pRat; let y ← pRat; pure (x, y))
+      let a ← pNat
+      pure (.pl pts a)
   | _ => failure
 
 def pCon : P Con := do
@@ -174,7 +178,7 @@ def step (s : St) (toks : List String) : Option (St × String) :=
         let m := s.model
         if xs.length != m.nvars then failure
         if !(inFragment m s.opts xs) then
-          pure (s, if m.ordered then "nonfinite" else "unordered")
+          pure (s, if m.ordered || s.opts.mode &&& 992 == 0 then "nonfinite" else "unordered")
         else
           pure (s, outcomeStr s.opts (checkSolution m s.opts xs ov ki)) : P _).run' r
   | "recompute" :: r =>
